@@ -230,11 +230,11 @@ class C19(Prop):
         elif reached_impl:
             from collections import Counter
             from harness import ilpcap
-            mine, theirs = Counter(ilpcap.model_constraints(mlp)), Counter(cap["constraints"])
+            mine, theirs = set(ilpcap.model_constraints(mlp)), set(cap["constraints"])     # as sets: repeats are drift
             if mine != theirs:
-                diff = list((theirs - mine).items())[:2] + list((mine - theirs).items())[:2]
+                diff = list(theirs - mine)[:2] + list(mine - theirs)[:2]
                 out.append(Problem("disagreement", case, "the LP handed to the solver differs from the model's "
-                                   f"({sum((theirs - mine).values())} extra, {sum((mine - theirs).values())} missing), e.g. {diff}",
+                                   f"({len(theirs - mine)} extra, {len(mine - theirs)} missing), e.g. {diff}",
                                    "model/lp-constraints", det))
         return out
 
